@@ -13,6 +13,9 @@ inf new nx ny dx dy vx vy cn2 L0 seed | inf evolve t | inf reset 0|1 | inf setcn
          `inf evolveq t` = evolve, answer without pars/scr)
 phases sx sy [kx…] [ky…]   (phasesold …)                      → ok [S_0,…]      flat, x fastest
 extrude left|right|top|bottom W H [new…] [screen…]            → ok […]          (naturals)
+arext left|right|top|bottom W H amp [screen…] [stencil positions…] [normals…] [A row];[A row]… [B row];…
+      → ok [new screen…]        numeric `_extrude`: A·screen[stencil] + B·normals·amp, then the list surgery (exact rationals)
+phasefor a λ                                                   → ok a/λ
 hfin new int|gen|genshared nx ny vx vy cn2 L0 seed | hfin evolve t | reset b | setcn2 c | setl0 l | setvel vx vy | read |
      cdraw n  (the caller draws n numbers from the generator it passed as `seed=`)
       → the `fin` answer of the view + valid=0|1 cache=0|1 caller=P|- al=<rng is orig><orig is caller><rng is caller>
@@ -216,6 +219,17 @@ def step (st : St) : List String → St × String
     match st.hinf, parseNat? n with
     | some (H, true), some n =>
       let H := H.foreignDraw 0 n; ({ st with hinf := some (H, true) }, showInf (H.view infAccess) ++ showHeap H true)
+    | _, _ => (st, "bad-op")
+  | ["arext", w, W, H, amp, scr, idx, rnd, A, B] =>
+    match parseWhere? w, parseNat? W, parseNat? H, parseRat? amp, parseRatList? scr, parseNatList? idx, parseRatList? rnd,
+        parseRatLists? A, parseRatLists? B with
+    | some w, some W, some H, some amp, some scr, some idx, some rnd, some A, some B =>
+      if scr.length ≠ H * W || A.length ≠ (if w.horizontal then H else W) || B.length ≠ A.length then (st, "err value")
+      else (st, "ok " ++ showRatList (arExtrude w W H A B idx rnd amp scr))
+    | _, _, _, _, _, _, _, _, _ => (st, "bad-op")
+  | ["phasefor", a, l] =>
+    match parseRat? a, parseRat? l with
+    | some a, some l => if l = 0 then (st, "err value") else (st, "ok " ++ showRat (phaseFor a l))
     | _, _ => (st, "bad-op")
   | ["phases", sx, sy, kx, ky] =>
     match parseRat? sx, parseRat? sy, parseRatList? kx, parseRatList? ky with
